@@ -139,7 +139,12 @@ func suiteProxy(r *rng, n int) {
 		mu.Unlock()
 		cache.ResetDispatchers(nil)
 		cache.ResetDispatchers([]config.CacheConfig{{Name: "c1", Size: 100, HitForPass: "300s"}})
-		upstream.Reset([]config.UpstreamConfig{{Name: "u1", AcceptEncoding: upAE, Servers: []config.UpstreamServerConfig{{Addr: origin.URL}}}})
+		// (the upstream under test is not the first of the configuration either: what is configured for its neighbour
+		// — an Accept-Encoding, a policy — is the neighbour's)
+		upstream.Reset([]config.UpstreamConfig{
+			{Name: "u0", AcceptEncoding: "deflate", Policy: "first", Servers: []config.UpstreamServerConfig{{Addr: origin.URL}}},
+			{Name: "u1", AcceptEncoding: upAE, Servers: []config.UpstreamServerConfig{{Addr: origin.URL}}},
+		})
 		waitUpstreamHealthy("u1")
 		// the location under test is neither the only nor the first location of the configuration: what is configured
 		// for the others (headers, query parameters, rewrites) must not show on its requests
